@@ -15,7 +15,7 @@ result = {
   'frames':  [ [module_name, code_name, file_name, gen_flag, first_line] ... ]   # index = frame id
   'events':  [ [stream_index, kind, frame_id, parent_frame_id|-1, line, exc_info] ... ]
                kind: 0 call, 1 line, 2 return, 3 exception;  exc_info: 0 | [type_name, is_StopIteration,
-               is_GeneratorExit, traceback_is_None, innermost traceback frame id|-1, its line]
+               is_GeneratorExit, traceback_is_None, innermost traceback frame id|-1, its line, its f_back id|-1, its generator flag]
   'stdout':  [ [stream_index|-1, text] ... ]                      # every sys.stdout.write, in order
   'ret': repr(return value), 'exc_type': str|None, 'exc_str': str, 'tb': [[file, line, name, module] ...],
   'fmt_exc': str, 'script_module': str, 'script_file': str, 'truncated': bool
@@ -106,12 +106,15 @@ class Recorder:
         x = 0
         if k == 3:
             tb = arg[2]
-            tf, tl = -1, 0
+            tf, tl, tp, tg = -1, 0, -1, False
             while tb is not None:       # innermost frame of the traceback (what Pdb.get_stack may select)
-                tf, tl = self.frame_id(tb.tb_frame), tb.tb_lineno
+                fr = tb.tb_frame
+                tf, tl = self.frame_id(fr), tb.tb_lineno
+                tp = self.frame_id(fr.f_back) if fr.f_back is not None else -1
+                tg = bool(fr.f_code.co_flags & GEN_FLAGS)
                 tb = tb.tb_next
             x = [getattr(arg[0], '__name__', str(arg[0])), arg[0] is StopIteration, arg[0] is GeneratorExit, arg[2] is None,
-                 tf, tl]
+                 tf, tl, tp, tg]
         self.events.append([s, k, f, p, frame.f_lineno, x])
         return self.trace
 
